@@ -179,7 +179,7 @@ type kenv struct {
 	kernel         bool
 	dhcp, nat, qos *bpfrun.Object
 	acct           *acctSrv
-	mapWrites      int
+	base           int // goroutines of the idle process (accounting server running, no world)
 }
 
 var dhcpMaps = []string{"subscriber_pools", "vlan_subscriber_pools", "circuit_id_map", "circuit_id_subscribers"}
@@ -204,6 +204,8 @@ func newKenv() *kenv {
 	if !e.kernel {
 		fmt.Fprintln(os.Stderr, "c16 driver: kernel maps unavailable:", e.dhcp.LoadErr, e.nat.LoadErr, e.qos.LoadErr)
 	}
+	time.Sleep(20 * time.Millisecond)
+	e.base = runtime.NumGoroutine()
 	return e
 }
 
@@ -334,7 +336,10 @@ func (e *kenv) newDWorld(c DCfg) *dworld {
 	if c.Radius {
 		w.srv.SetRADIUSClient(e.acct.client())
 	}
-	w.base = runtime.NumGoroutine()
+	// leftovers of the previous world (a PPPoE receive loop winding down) must be gone before this
+	// world's quiescence test means anything: the baseline is the idle process, not "now"
+	quiesce(e.base)
+	w.base = e.base
 	return w
 }
 
